@@ -2280,15 +2280,17 @@ static void _ov_getlap(OggVorbis_File *vf,vorbis_info *vi,vorbis_dsp_state *vd,
        postextrapolation buffering, or the second half of the MDCT
        from the last packet */
     int samples=vorbis_synthesis_lapout(&vf->vd,&pcm);
-    if(samples==0){
-      for(i=0;i<vi->channels;i++)
-        memset(lappcm[i]+lapcount,0,sizeof(**pcm)*lapsize-lapcount);
-      lapcount=lapsize;
-    }else{
+    if(samples>0){
       if(samples>lapsize-lapcount)samples=lapsize-lapcount;
       for(i=0;i<vi->channels;i++)
         memcpy(lappcm[i]+lapcount,pcm[i],sizeof(**pcm)*samples);
       lapcount+=samples;
+    }
+    /* whatever could not be had is silence, not stack garbage */
+    if(lapcount<lapsize){
+      for(i=0;i<vi->channels;i++)
+        memset(lappcm[i]+lapcount,0,sizeof(**pcm)*(lapsize-lapcount));
+      lapcount=lapsize;
     }
   }
 }
